@@ -128,6 +128,31 @@ def res_program(rng):
     return {'start': 0, 'roots': [root, other]}
 
 
+def rendezvous_program(rng):
+    """several activities that ask, at different (fractional) times, to be resumed at the SAME absolute decimal date:
+    they become runnable for one time step and must run in the order in which they asked"""
+    start = rng.choice([0, 0, 0.3, 5, -2.5])
+    date = round(start + rng.choice([0.7, 0.9, 1.1, 1.3, 2.3, 3.9]), 6)
+    roots = []
+    for _ in range(rng.randint(3, 7)):
+        ops = []
+        if rng.random() < 0.85:
+            ops.append({'op': 'sleep', 'd': rng.choice([0.1, 0.2, 0.3, 0.4, 0.5, 0.6])})
+        r = rng.random()
+        if r < 0.5:
+            ops.append({'op': 'await_c', 'c': [rng.choice(['ge', 'eq']), date]})
+        elif r < 0.75:
+            ops += [{'op': 'open', 'kind': 'until_c', 'catch': True, 'c': [rng.choice(['ge', 'eq']), date]},
+                    {'op': 'sleep', 'd': 50}, {'op': 'leave'}]
+        else:
+            ops += [{'op': 'open', 'kind': 'scope', 'catch': True},
+                    {'op': 'do', 's': -1, 'vol': False, 'fin': 'none', 'at_abs': date, 'prog': [{'op': 'instant'}]},
+                    {'op': 'leave'}]
+        ops.append({'op': 'instant'})
+        roots.append(ops)
+    return {'start': start, 'roots': roots}
+
+
 TIME_FIELDS = ('t', 'due', 'at', 'v')
 
 
@@ -170,7 +195,7 @@ BIG = dict(NRoots=3, MaxActs=7, MaxScopes=4, RootOps=24, TaskOps=16, Horizon=12,
            Menu={'leave', 'instant', 'sleep', 'fset', 'await_f', 'enter', 'avail', 'status', 'open', 'nocatch', 'until_d',
                  'until_f', 'do', 'do_after', 'do_volatile', 'do_fin', 'do_grace', 'cancel', 'await_t', 'raise', 'raise_priv',
                  'put', 'get', 'qclose', 'cput', 'cget', 'cnext', 'cstop', 'cclose', 'await_time', 'await_s', 'until_time',
-                 'borrow', 'claim', 'rchange', 'levels', 'await_lvl', 'tick'})
+                 'borrow', 'claim', 'rchange', 'levels', 'await_lvl', 'lvl_rels', 'tick'})
 TICKS = [{'kind': 'interval', 'p': 2}, {'kind': 'interval', 'p': 0}, {'kind': 'delay', 'p': 0}, {'kind': 'delay', 'p': 2}]
 
 
@@ -199,7 +224,7 @@ def usim_program(rng):
         if r in ('inc', 'dec'):
             return {'op': r, 'p': 1, 'amt': rng.choice([0, 1, 2])}
         if r == 'await_lvl':
-            return {'op': 'await_lvl', 'p': 1, 'v': rng.choice([0, 1, 2])}
+            return {'op': 'await_lvl', 'p': 1, 'v': rng.choice([0, 1, 2]), 'rel': rng.choice(['ge', 'ge', 'le', 'gt', 'lt', 'eq', 'ne'])}
         if r == 'tick':
             i = rng.randint(1, 4)
             return dict(op='tick', i=i, **TICKS[i - 1])
